@@ -49,9 +49,11 @@ def run(ck):
                 nonnull = p.passed(out, True); null = p.passed(out, False)
                 fr = [f for f in frees if f[2] == (out,)]
                 if len(frees) != len(fr): w2b.append(f'frees {[f[2] for f in frees]}')
+                if len(fr) > 1: w2b.append(f'buffer freed {len(fr)} times')
                 if nonnull and len(fr) != 1: w2b.append(f'buffer non-NULL but freed {len(fr)} time(s)')
                 if null and fr: w2b.append('free on the NULL branch')
-                if not nonnull and not null: w2b.append('path returns without testing/freeing the buffer')
+                # after a successful conversion the buffer exists: freeing it once without a NULL test is fine
+                if not nonnull and not null and not (len(fr) == 1 and not failed): w2b.append('path returns without testing/freeing the buffer')
                 if fr:
                     j = p.events.index(fr[0])
                     used = [x for x in p.events[j + 1:] if any(out in s for s in eavobj.event_values(x))]
@@ -82,9 +84,11 @@ def run(ck):
         w4 = []
         for p in paths:
             if p.events and p.events[-1][0] == 'abort': continue
-            first = [e for e in p.events if e[0] in ('cond', 'call')][0]
-            if not (first[0] == 'cond' and first[1] == 'eav->idnmsg'): w4.append('the call does not start by resetting idnmsg')
-            elif first[2] and (p.sets('eav->idnmsg')[0][2] != 'NULL'): w4.append('idnmsg not reset to NULL')
+            # the message of an earlier call must be gone before this call can set its own
+            cb = [k for k, e in enumerate(p.events) if e[0] == 'call' and e[1].startswith('(*')]
+            before = p.events[:cb[0]] if cb else p.events
+            reset = any(e[0] == 'set' and e[1] == 'eav->idnmsg' and e[2] == 'NULL' for e in before) or any(e[0] == 'cond' and e[1] == 'eav->idnmsg' and e[2] is False for e in before)
+            if not reset: w4.append('idnmsg of an earlier call is not reset before the address is validated')
             se = p.calls(STRERROR[b])
             rs = p.last_set('eav->result')
             if se and (rs is None or se[0][2] != (rs[2] + '->idn_rc',)): w4.append(f'{STRERROR[b]} applied to {se[0][2]}')
